@@ -145,10 +145,10 @@ def kl_configs(rng, quick):
 def okl_configs(rng, quick):
     base = [
         {"sched": [0, 2], "geo": False, "nonlinear": True, "constants": [], "point_estimates": []},       # MAP, then MGVI
-        {"sched": [1, 2], "geo": True, "nonlinear": True, "constants": ["a"], "point_estimates": []},     # geoVI
     ]
     if not quick:
         base += [
+            {"sched": [1, 2], "geo": True, "nonlinear": True, "constants": ["a"], "point_estimates": []},     # geoVI
             {"sched": [0, 0], "geo": False, "nonlinear": True, "constants": [], "point_estimates": []},   # MAP only
             {"sched": [2, 0, 3], "geo": False, "nonlinear": False, "constants": [], "point_estimates": ["b"]},
             {"sched": [2, 2], "geo": False, "nonlinear": True, "constants": [], "point_estimates": [], "outdir": "OUT"},
@@ -209,14 +209,14 @@ class C22(C.Check):
         # mirrored member of a pair (4 entries over 3 tasks), an uneven split, more tasks than samples
         quick_nts = [[1, 3], [1, 2], [1, 5]]
         for ci, cfg in enumerate(kl_configs(rng, quick)):
-            nts = quick_nts[ci % 3] if quick else [1, 2, 3, 4, 5, 6]
+            nts = quick_nts[ci % 3] if quick else ([1, 2, 3, 5, 6] if ci % 2 == 0 else [1, 2, 4, 6])
             plan += [("kl", cfg, nt) for nt in nts]
         for cfg in okl_configs(rng, quick):
             if cfg.get("outdir"):
                 cfg["outdir"] = work
-            nts = ([1, 2] if 0 in cfg["sched"] else [1, 3]) if quick else [1, 2, 3, 4, 5]
+            nts = ([1, 2] if 0 in cfg["sched"] else [1, 3]) if quick else [1, 2, 3, 4]
             plan += [("okl", cfg, nt) for nt in nts]
-        timeout = 240 if quick else 600
+        timeout = 400 if quick else 900
 
         def one(item):
             kind, cfg, nt = item
